@@ -26,6 +26,11 @@ def configs():
     for m in (1, 3, 10, 12):
         add("Stacking%d" % m, lambda m=m: SkBaseTransformStacking([Ridge(alpha=float(i + 1)) for i in range(m)], "predict", extra=1),
             lambda m=m: SkBaseTransformStacking([Ridge(alpha=float(10 * i + 7)) for i in range(m)], "predict", extra=3), "reg-transform")
+    # the parameters of an instance with MORE (fewer) members given to one with fewer (more): the models list and the members' parameters at once
+    add("Stacking2<-3", lambda: SkBaseTransformStacking([Ridge(alpha=float(i + 1)) for i in range(2)], "predict", extra=1),
+        lambda: SkBaseTransformStacking([Ridge(alpha=float(10 * i + 7)) for i in range(3)], "predict", extra=3), "reg-transform")
+    add("Stacking3<-2", lambda: SkBaseTransformStacking([Ridge(alpha=float(i + 1)) for i in range(3)], "predict", extra=1),
+        lambda: SkBaseTransformStacking([Ridge(alpha=float(10 * i + 7)) for i in range(2)], "predict", extra=3), "reg-transform")
     add("ClassifierAfterKMeans", lambda: mm.ClassifierAfterKMeans(LogisticRegression(C=2.0), MiniBatchKMeans(n_clusters=2, n_init=1, random_state=0)),
         lambda: mm.ClassifierAfterKMeans(LogisticRegression(C=0.5), MiniBatchKMeans(n_clusters=3, n_init=1, random_state=1)), "clf")
     add("ClassifierAfterKMeans-default", lambda: mm.ClassifierAfterKMeans(c_n_clusters=3, c_random_state=0, c_n_init=1), lambda: mm.ClassifierAfterKMeans(e_C=4.0), "clf")
